@@ -45,7 +45,17 @@ K6 == [prolog |-> <<>>, nodes |-> <<
   Nd("attr", 2, Cp("xml"), <<108, 97, 110, 103>>, XmlNsUri, <<26085, 26412, 35486>>), At(2, "x", "1"),
   El(2, "b"), El(2, "c"), El(6, "b") >>]
 
-Docs == <<K1, K2, K3, K4, K5, K6>>
+\* <r xmlns:p="u1" x="1"><p:b p:x="2"/><b>t</b></r>
+\*   (a prefix the DOCUMENT declares: the expression may only use the prefixes given with --setns)
+NsN(p, pre, uri) == Nd("ns", p, <<>>, pre, <<>>, uri)
+XmlNs(p) == NsN(p, Cp("xml"), XmlNsUri)
+K7 == [prolog |-> <<>>, nodes |-> <<
+  RootN, El(1, "r"), XmlNs(2), NsN(2, Cp("p"), Cp("u1")), At(2, "x", "1"),
+  Nd("elem", 2, Cp("p"), Cp("b"), Cp("u1"), <<>>), XmlNs(6), NsN(6, Cp("p"), Cp("u1")),
+  Nd("attr", 6, Cp("p"), Cp("x"), Cp("u1"), Cp("2")),
+  El(2, "b"), XmlNs(10), NsN(10, Cp("p"), Cp("u1")), Tx(10, "t") >>]
+
+Docs == <<K1, K2, K3, K4, K5, K6, K7>>
 
 \* ---------------------------------------------------------------------------------------------
 NumL(i)    == [t |-> "num", n |-> OfInt(i)]
@@ -62,6 +72,13 @@ AtS(n) == Step("attribute", NameT(n), <<>>)
 Rel(steps) == [t |-> "path", abs |-> FALSE, steps |-> steps]
 Fn0(f) == [t |-> "fn", name |-> f, args |-> <<>>]
 Raw(s) == [t |-> "raw", text |-> s]          \* an expression given as text (not an expression at all)
+
+\* an expression together with the --setns arguments of the run: the bindings they establish for the expression
+\* context, the arguments as text, and whether one of them is not of the documented form (the tool must refuse)
+WithNs(e, binds, args, bad) == [t |-> "withns", e |-> e, binds |-> binds, args |-> args, bad |-> bad]
+B(pre, uri) == <<Cp(pre), Cp(uri)>>
+SetNs(pre, uri) == <<120, 109, 108, 110, 115, 58>> \o Cp(pre) \o <<61>> \o Cp(uri)
+QN(pre, n) == [k |-> "name", pre |-> Cp(pre), loc |-> Cp(n)]
 
 NumHalf(k) == [t |-> "num", n |-> Fin(512 * k)]       \* k/2
 RECURSIVE AndChain(_)
@@ -108,7 +125,21 @@ Exprs == <<
   AbsP(<<Dos, Step("child", NameT("b"), <<Bin("div", Fn0("last"), NumL(2))>>)>>),                    \* 33  //b[last() div 2]
   Fn1("number", [t |-> "str", v |-> <<49, 101, 51>>]),                                               \* 34  number('1e3')   NaN: no exponents in XPath 1.0
   Bin(">", [t |-> "str", v |-> <<105, 110, 102>>], NumL(1)),                                         \* 35  'inf' > 1       false
-  AndChain(24)                                                                                       \* 36  true() and (true() and ...) - 24 zero-argument calls (TLC's stack does not take the ~650 tokens of 130)
+  AndChain(24),                                                                                      \* 36  true() and (true() and ...) - 24 zero-argument calls (TLC's stack does not take the ~650 tokens of 130)
+  \* ---- expressions that come with --setns arguments (README: --setns xmlns:<prefix>=<uri>) ----
+  WithNs(AbsP(<<Dos, Step("child", QN("q", "b"), <<>>)>>), <<B("q", "u1")>>, <<SetNs("q", "u1")>>, FALSE),         \* 37  //q:b       q = u1: the document calls it p
+  WithNs(AbsP(<<Dos, Step("child", QN("q", "b"), <<>>)>>), <<B("q", "u2")>>, <<SetNs("q", "u2")>>, FALSE),         \* 38  //q:b       q = u2: selects nothing
+  WithNs(AbsP(<<Dos, Step("attribute", QN("q", "x"), <<>>)>>), <<B("q", "u1")>>, <<SetNs("q", "u1")>>, FALSE),     \* 39  //@q:x
+  WithNs(Bin("|", AbsP(<<Dos, Step("child", QN("q", "b"), <<>>)>>), AbsP(<<Dos, Ch("b")>>)),
+         <<B("q", "u1"), B("z", "u2")>>, <<SetNs("q", "u1"), SetNs("z", "u2")>>, FALSE),                           \* 40  //q:b | //b   two bindings
+  WithNs(AbsP(<<Dos, Step("child", QN("q", "b"), <<>>)>>), <<>>, <<<<113, 61, 117, 49>>>>, TRUE),                            \* 41  --setns q=u1        not the documented form
+  WithNs(AbsP(<<Dos, Ch("b")>>), <<>>, <<<<120, 109, 108, 110, 115, 58, 113>>>>, TRUE),                                                   \* 42  --setns xmlns:q     no '='
+  WithNs(AbsP(<<Dos, Ch("b")>>), <<>>, <<<<102, 111, 111, 58, 113, 61, 117>>>>, TRUE),                                                   \* 43  --setns foo:q=u     not xmlns
+  WithNs(AbsP(<<Dos, Step("child", [k |-> "nsany", pre |-> Cp("q")], <<>>)>>), <<B("q", "u1")>>, <<SetNs("q", "u1")>>, FALSE),   \* 44  //q:*
+  AbsP(<<Dos, Step("child", QN("p", "b"), <<>>)>>),                                                                \* 45  //p:b without --setns: the document's own prefix is not part of the expression context
+  WithNs(AbsP(<<Dos, Step("child", QN("q", "b"), <<>>)>>), <<B("q", "u1")>>, <<SetNs("q", "u2"), SetNs("q", "u1")>>, FALSE),     \* 46  the same prefix twice: the later binding holds
+  WithNs(AbsP(<<Dos, Step("child", QN("q", "b"), <<Rel(<<Step("attribute", QN("q", "x"), <<>>)>>)>>)>>),
+         <<B("q", "u1")>>, <<SetNs("q", "u1")>>, FALSE)                                                            \* 47  //q:b[@q:x]
 >>
 
 \* ---------------------------------------------------------------------------------------------
@@ -134,7 +165,18 @@ Frags == <<
   Frag(<<60, 113, 58, 122, 32, 120, 109, 108, 110, 115, 58, 113, 61, 34, 107, 34, 32, 113, 58, 119, 61, 34, 49, 34, 62, 120, 60, 47, 113, 58, 122, 62>>, TRUE, {"elem"}, 1, <<>>, FALSE)
 >>
 
-ValOf(di, ei) == IF Exprs[ei].t = "raw" THEN Err ELSE EvalTop(Docs[di], Exprs[ei], <<>>)
-ExprText(ei) == IF Exprs[ei].t = "raw" THEN Exprs[ei].text
-                ELSE Unparse(Exprs[ei], [abbrev |-> TRUE, ws |-> 0, parens |-> FALSE])
+ValOf(di, ei) ==
+  LET x == Exprs[ei] IN
+  IF x.t = "raw" THEN Err
+  ELSE IF x.t = "withns" THEN (IF x.bad THEN Err ELSE EvalTop(Docs[di], x.e, x.binds))
+  ELSE EvalTop(Docs[di], x, <<>>)
+ExprText(ei) ==
+  LET x == Exprs[ei] IN
+  IF x.t = "raw" THEN x.text
+  ELSE Unparse(IF x.t = "withns" THEN x.e ELSE x, [abbrev |-> TRUE, ws |-> 0, parens |-> FALSE])
+\* the --setns arguments of a run, in order
+SetnsOf(ei) == IF Exprs[ei].t = "withns" THEN Exprs[ei].args ELSE <<>>
+\* documents a --setns expression is run on (the pool is a product otherwise)
+NsExprs == {e \in 1..Len(Exprs) : Exprs[e].t = "withns"} \cup {45}
+RunsOn(di, ei) == (ei \in NsExprs => di \in {1, 7}) /\ (di = 7 => ei \in NsExprs \cup {1, 2, 3, 6, 8, 13, 17, 26, 27})
 =============================================================================
